@@ -9,16 +9,6 @@ set_option linter.unusedVariables false
 namespace AsmjitVerif.Lemmas.X86Parse
 open Spec.X86
 
-/-- the decorations of a call, as the monitor reads them -/
-def decorOf (k : Nat) (z er sae : Bool) (rc : Nat) : Decor := { k := k, z := z, er := er, sae := sae, rc := rc }
-
-/-- the form allows the decorations -/
-structure DecorAllowed (rule : Rule) (k : Nat) (z er sae : Bool) : Prop where
-  hk : k ≠ 0 → rule.kmask = true
-  hz : z = true → rule.zmask = true
-  her : er = true → rule.er = true
-  hsae : sae = true → (rule.sae = true ∨ rule.er = true)
-
 /-- what the parser returned for a decorated EVEX register form -/
 structure EvexParsedD (rule : Rule) (p : Parsed) (mb : BitVec 8) (k : Nat) (z er sae : Bool) (rc : Nat) : Prop where
   hvk : p.vexKind = 4
